@@ -330,7 +330,11 @@ func genWriterFile(rng *hlib.Rand, big bool) (*testFile, []byte, string) {
 	if n > 0 && rng.Chance(1, 2) {
 		n -= rng.Intn(dcs) // last chunk short
 	}
-	for n > 700000 {
+	maxN := 250000
+	if big || rng.Chance(1, 6) {
+		maxN = 700000
+	}
+	for n > maxN {
 		n /= 2
 	}
 	seed := rng.Uint64()
@@ -391,9 +395,9 @@ func genChunkFile(rng *hlib.Rand, kind string) (*testFile, string) {
 	}
 	sizes := []int{1, 2, 3, 8, 50, 300, 5000}
 	if kind == "zeroes" {
-		sizes = []int{1, 5, 1000, 65535, 65536, 65537, 131072, 200000, 400000}
-		if nChunks > 20 {
-			nChunks = 20
+		sizes = []int{1, 5, 1000, 65535, 65536, 65537, 131072, 200000}
+		if nChunks > 8 {
+			nChunks = 1 + nChunks%8
 		}
 	}
 	if kind != "zeroes" && nChunks < 20 && rng.Chance(1, 5) {
